@@ -323,7 +323,13 @@ def build(ctx):
     ty_ = [None, ("tdm", []), ("t", [("z", 1)])]
     tt = [(a_, b_) for a_ in tg_ for b_ in ty_]
     arr_sel = arrays
-    for (A, B), (tg, ty) in itertools.product(list(itertools.product(arr_sel, repeat=2))[::2] + [(a_, a_) for a_ in arr_sel[::3]], tt):
+    allpairs = list(itertools.product(arr_sel, repeat=2))
+    collide = [i for i in arr_sel if V[i][0] in ("array-collide", "array-edge")]
+    tt_first = [(None, None), (tg_[1], None), (None, ty_[2]), (tg_[2], ty_[1])]          # every pair of arrays under these four
+    plan = [(pr, m_) for pr in allpairs for m_ in tt_first]
+    plan += [(pr, m_) for pr in itertools.product(collide, repeat=2) for m_ in tt if m_ not in tt_first]     # arrays that coincide: under all nine
+    plan += [(pr, m_) for pr in allpairs[1::3] for m_ in tt if m_ not in tt_first]                               # the rest of the grid on a third of the pairs
+    for (A, B), (tg, ty) in plan:
         spec = {"ops": [{"op": "G", "args": [A, 1], "kwargs": [("U", B), ("s", label["'with space'"])], "modes": [0]}, {"op": "H", "args": [B], "modes": [1]}, {"op": "K", "noargs": True, "modes": [0, 1]}]}
         if tg:
             spec["target"] = tg
